@@ -243,10 +243,16 @@ func (ps *PubSub) NumSub(channels []string) []byte {
 
 	res := fmt.Sprintf("*%d\r\n", len(channels))
 	for _, channel := range channels {
-		// If it's a pattern channel, skip it
+		// The channel of that name. (A pattern subscription whose text equals the name is a different entry: it is
+		// only reported when no channel of that name exists.)
 		chanIdx := slices.IndexFunc(ps.channels, func(c *Channel) bool {
-			return c.name == channel
+			return c.name == channel && c.pattern == nil
 		})
+		if chanIdx == -1 {
+			chanIdx = slices.IndexFunc(ps.channels, func(c *Channel) bool {
+				return c.name == channel
+			})
+		}
 		if chanIdx == -1 {
 			res += fmt.Sprintf("*2\r\n$%d\r\n%s\r\n:0\r\n", len(channel), channel)
 			continue
